@@ -70,3 +70,10 @@ TEXT["C01"] = {
     "note": "trusts the harness's program parser (harness/src/enc.rs), inference and value model",
     "technique": "round-trip monitor with an independent bit-level parser as reference model",
 }
+TEXT["C02"] = {
+    "level": ("Totality is observed, not proved: every decoder call runs under panic capture, a counting allocator, a proportional time budget and process-death attribution; "
+              "canonicity is checked by re-encoding every accepted input and by positive controls that violate one rule each. Covers the explored strings only; depth-related crashes are listed findings."),
+    "design_ref": "DESIGN.md section 5, C02",
+    "note": "trusts the harness encoder/parser for the hand-assembled inputs; stack size pinned to 8 MiB so that recursion findings are keyed on depth",
+    "technique": "totality monitors (panic/abort/hang/allocation) + re-encode oracle over random, mutated and hand-assembled encodings",
+}
